@@ -625,6 +625,133 @@ pub fn sweep_frames(chunk: usize, of: usize) -> (Vec<F>, usize, usize) {
     (fs, accepted, rejected)
 }
 
+/// Part 5: frames built as Rust values (TTL values that no string spells, with and without a
+/// meta) through the library entry points `Store::append` and `Store::insert_frame`: whatever is
+/// accepted must stay readable on every path and across a reopen; whatever is refused leaves
+/// nothing behind.
+pub fn api_cases() -> Vec<(String, Option<TTL>, Option<Value>, bool)> {
+    let ttls: Vec<(&str, Option<TTL>)> = vec![
+        ("absent", None),
+        ("forever", Some(TTL::Forever)),
+        ("time-0", Some(TTL::Time(Duration::from_millis(0)))),
+        ("time-1500us", Some(TTL::Time(Duration::from_micros(1500)))),
+        ("time-1h", Some(TTL::Time(Duration::from_secs(3600)))),
+        ("time-u64max-ms", Some(TTL::Time(Duration::from_millis(u64::MAX)))),
+        ("time-u64max-ms+1ms", Some(TTL::Time(Duration::from_millis(u64::MAX) + Duration::from_millis(1)))),
+        ("time-u64max-s", Some(TTL::Time(Duration::from_secs(u64::MAX)))),
+        ("time-max", Some(TTL::Time(Duration::MAX))),
+        ("head-0", Some(TTL::Head(0))),
+        ("head-1", Some(TTL::Head(1))),
+        ("head-u32max", Some(TTL::Head(u32::MAX))),
+    ];
+    let metas: Vec<(&str, Option<Value>)> = vec![("none", None), ("null", Some(Value::Null)), ("obj", Some(json!({"k": 1}))), ("f64-nan-like", Some(json!({"k": 1.0e308})))];
+    let mut out = vec![];
+    for (tn, t) in &ttls {
+        for (mn, m) in &metas {
+            for insert in [false, true] {
+                out.push((format!("{} ttl={} meta={}", if insert { "insert_frame" } else { "append" }, tn, mn), t.clone(), m.clone(), insert));
+            }
+        }
+    }
+    out
+}
+
+pub fn sweep_api(chunk: usize, of: usize) -> (Vec<F>, usize, usize) {
+    use xs::store::Store;
+    let mut fs = vec![];
+    let (mut accepted, mut rejected) = (0usize, 0usize);
+    let rt = tokio::runtime::Builder::new_current_thread().enable_all().build().unwrap();
+    let msg_of = |p: Box<dyn std::any::Any + Send>| p.downcast_ref::<String>().cloned().or_else(|| p.downcast_ref::<&str>().map(|s| s.to_string())).unwrap_or_default().chars().take(200).collect::<String>();
+    for (i, (label, ttl, meta, insert)) in api_cases().into_iter().enumerate() {
+        if i % of != chunk {
+            continue;
+        }
+        let dir = common::scratch_dir("e6api");
+        let store = Store::new(dir.clone());
+        let base = store.append(Frame::builder("base", ZERO_CONTEXT).build()).expect("harness append");
+        let before = store.verif_dump();
+        let mut frame = Frame::builder("t", ZERO_CONTEXT).maybe_ttl(ttl.clone()).maybe_meta(meta.clone()).build();
+        if insert {
+            frame.id = scru128::new();
+        }
+        let res = std::panic::catch_unwind(std::panic::AssertUnwindSafe(|| if insert { store.insert_frame(&frame).map(|_| frame.clone()).map_err(|e| e.to_string()) } else { store.append(frame.clone()).map_err(|e| e.to_string()) }));
+        let ok = match res {
+            Err(p) => {
+                fs.push(F { kind: "api.panic".into(), msg: format!("{}: the entry point panics: {}", label, msg_of(p)) });
+                false
+            }
+            Ok(Err(_)) => {
+                rejected += 1;
+                if store.verif_dump() != before {
+                    fs.push(F { kind: "frame.stored_malformed".into(), msg: format!("refused {} left something behind", label) });
+                }
+                false
+            }
+            Ok(Ok(_)) => {
+                accepted += 1;
+                true
+            }
+        };
+        if ok {
+            rt.block_on(store.wait_for_gc());
+            let s2 = store.clone();
+            let r = std::panic::catch_unwind(std::panic::AssertUnwindSafe(|| -> Result<(), String> {
+                let v: Vec<Frame> = s2.read_sync(None, None, None).collect();
+                if !v.iter().any(|f| f.id == base.id) {
+                    return Err("the earlier frame is no longer read".into());
+                }
+                for f in &v {
+                    let j = serde_json::to_string(f).map_err(|e| e.to_string())?;
+                    let back: Frame = serde_json::from_str(&j).map_err(|e| format!("stored frame does not re-parse: {} :: {}", e, j))?;
+                    if &back != f {
+                        return Err(format!("frame changes in a JSON round trip: {:?} -> {:?}", f, back));
+                    }
+                    let _ = s2.get(&f.id);
+                }
+                let _ = s2.head("t", ZERO_CONTEXT);
+                let _ = s2.head("base", ZERO_CONTEXT);
+                Ok(())
+            }));
+            match r {
+                Ok(Ok(())) => {}
+                Ok(Err(e)) => fs.push(F { kind: "frame.roundtrip".into(), msg: format!("after accepted {}: {}", label, e) }),
+                Err(p) => fs.push(F { kind: "read.panic".into(), msg: format!("after accepted {}: reading the store panics: {}", label, msg_of(p)) }),
+            }
+            // the collector still works: a head:1 pair is reduced to its newest frame
+            let r = std::panic::catch_unwind(std::panic::AssertUnwindSafe(|| {
+                let _ = store.append(Frame::builder("probe", ZERO_CONTEXT).ttl(TTL::Head(1)).build());
+                let _ = store.append(Frame::builder("probe", ZERO_CONTEXT).ttl(TTL::Head(1)).build());
+                rt.block_on(store.wait_for_gc());
+                store.read_sync(None, None, None).filter(|f| f.topic == "probe").count()
+            }));
+            match r {
+                Ok(1) => {}
+                Ok(n) => fs.push(F { kind: "read.panic".into(), msg: format!("after accepted {}: the collector no longer works ({} frames of a head:1 topic remain)", label, n) }),
+                Err(p) => fs.push(F { kind: "read.panic".into(), msg: format!("after accepted {}: appending / reading panics: {}", label, msg_of(p)) }),
+            }
+        }
+        // reopen
+        if common::close_store(store, Duration::from_secs(3)) {
+            let d2 = dir.clone();
+            let r = std::panic::catch_unwind(std::panic::AssertUnwindSafe(move || {
+                let s = Store::new(d2);
+                let n = s.read_sync(None, None, None).count();
+                (s, n)
+            }));
+            match r {
+                Ok((s, _)) => {
+                    common::close_store(s, Duration::from_secs(3));
+                }
+                Err(p) => fs.push(F { kind: "read.panic".into(), msg: format!("after {} {}: the store cannot be reopened / read: {}", if ok { "accepted" } else { "refused" }, label, msg_of(p)) }),
+            }
+        } else if ok {
+            fs.push(F { kind: "read.panic".into(), msg: format!("after accepted {}: the store does not close (a worker thread is stuck or dead)", label) });
+        }
+        let _ = std::fs::remove_dir_all(&dir);
+    }
+    (fs, accepted, rejected)
+}
+
 pub fn worker() {
     common::worker_loop(move |job| {
         let part = job["part"].as_str().unwrap_or("");
@@ -639,6 +766,7 @@ pub fn worker() {
             "options" => sweep_read_options(),
             "client" => sweep_client(),
             "frames" => sweep_frames(chunk, of),
+            "api" => sweep_api(chunk, of),
             _ => panic!("unknown part"),
         };
         json!({"findings": fs.iter().map(|f| json!({"kind": f.kind, "msg": f.msg})).collect::<Vec<_>>(), "a": a, "b": b})
@@ -657,10 +785,14 @@ pub fn run_c12(tier: &str, report: &mut Report) {
     for c in 0..of {
         jobs.push(json!({"part": "frames", "chunk": c, "of": of}));
     }
+    for c in 0..8 {
+        jobs.push(json!({"part": "api", "chunk": c, "of": 8}));
+    }
     let results = common::pool_map("e6", &[], common::ncpu(), jobs.clone());
     let mut kinds: HashSet<String> = HashSet::new();
     let (mut ttl_acc, mut ttl_rej, mut opt_vals, mut opt_q, mut fr_acc, mut fr_rej) = (0u64, 0u64, 0u64, 0u64, 0u64, 0u64);
     let (mut cl_app, mut cl_cat) = (0u64, 0u64);
+    let (mut api_acc, mut api_rej) = (0u64, 0u64);
     for (j, r) in jobs.iter().zip(results.iter()) {
         if r.get("crashed").is_some() || r.get("panicked").is_some() {
             // a crash of the whole worker means the subject took the process down on some input
@@ -686,6 +818,10 @@ pub fn run_c12(tier: &str, report: &mut Report) {
                 cl_app += a;
                 cl_cat += b;
             }
+            "api" => {
+                api_acc += a;
+                api_rej += b;
+            }
             _ => {
                 fr_acc += a;
                 fr_rej += b;
@@ -702,17 +838,18 @@ pub fn run_c12(tier: &str, report: &mut Report) {
             });
         }
     }
-    let total = ttl_acc + ttl_rej + opt_vals + opt_q + fr_acc + fr_rej + cl_app + cl_cat;
+    let total = ttl_acc + ttl_rej + opt_vals + opt_q + fr_acc + fr_rej + cl_app + cl_cat + api_acc + api_rej;
     report.cov("evaluations", json!(total));
     report.cov("distinct_nontrivial", json!(total));
     report.cov("states", json!(total));
     report.cov("transitions", json!(total));
     report.cov("traces_validated_against_impl", json!(total));
-    report.cov("rule", json!("every concatenation of <=3 tokens of the 17-token TTL alphabet (deduplicated); every ReadOptions value of the 8x2x2x4x3 product; every query string of <=3 distinct-key pairs over the option alphabet (third pair thinned); every xs-meta text of the meta alphabet through POST /{topic}; frames over topic x hash x ttl x meta (one or two dimensions off the base point) through POST /import; the real client (xs::client::append / cat) against the real server over 7 TTLs x 6 metas x 2 contexts x 2 bodies and 120 non-following option combinations in both renderings. All inputs are distinct by construction; each goes through the real parser / HTTP boundary."));
+    report.cov("rule", json!("every concatenation of <=3 tokens of the 17-token TTL alphabet (deduplicated); every ReadOptions value of the 8x2x2x4x3 product; every query string of <=3 distinct-key pairs over the option alphabet (third pair thinned); every xs-meta text of the meta alphabet through POST /{topic}; frames over topic x hash x ttl x meta (one or two dimensions off the base point) through POST /import; the real client (xs::client::append / cat) against the real server over 7 TTLs x 6 metas x 2 contexts x 2 bodies and 120 non-following option combinations in both renderings; frames built as Rust values (12 TTL values incl. Head(0), Time beyond u64 ms, sub-ms x 4 metas) through Store::append and Store::insert_frame, each on a fresh store with read-back, collector probe and reopen. All inputs are distinct by construction; each goes through the real parser / HTTP boundary."));
     report.cov("ttl_strings", json!({"accepted": ttl_acc, "rejected": ttl_rej}));
     report.cov("read_options", json!({"values": opt_vals, "query_strings": opt_q}));
     report.cov("frames", json!({"accepted": fr_acc, "rejected": fr_rej}));
     report.cov("client_trips", json!({"appends": cl_app, "cats": cl_cat}));
+    report.cov("api_frames", json!({"accepted": api_acc, "rejected": api_rej}));
     report.cov("exhaustive", json!(true));
     report.cov("samples", json!(["time:+1", "head:4294967296", "follow=7&tail=no&limit=18446744073709551615", "xs-meta arr-depth-127", "import topic=\"a\\u0001\" hash=multi ttl=absent meta=null"]));
 }
@@ -730,6 +867,7 @@ pub fn replay(v: &Value) -> i32 {
         }
         "options" => sweep_read_options(),
         "client" => sweep_client(),
+        "api" => sweep_api(chunk, of),
         _ => sweep_frames(chunk, of),
     };
     for f in &fs {
